@@ -68,6 +68,15 @@ TraceBgFinish == IsEvent("BgFinish") /\ Ev.r = Ev.want /\ BgFinishG(Ev.r, Got, L
 TraceBgReturn == IsEvent("BgReturn") /\ BgReturn(Ev.b) /\ Ev.res = "ok" /\ ObsOK
 TracePrioBegin == IsEvent("PrioBegin") /\ PrioBegin /\ ObsOK
 TracePrioEnd == IsEvent("PrioEnd") /\ PrioEndG(L2(IF BgResumes(PfPrio) THEN BgLocal ELSE lst)) /\ ObsOK
+\* Seen on the implementation (thorough tier): an on-demand read whose blob fetch joins the singleflight call of a
+\* background fetch that a prioritized task (possibly this very read) has just cancelled shares its "context canceled"
+\* error: the read fails without a request of its own. No C15 formula speaks about reads during a suspended
+\* background fetch (it is a matter of C06); the trace spec accepts it as a failed read that changes nothing.
+TraceReadCancelled ==
+    /\ IsEvent("Read") /\ ~Ev.ok /\ bg = "suspended" /\ lst[Ev.f] # 2 /\ Rq = {}
+    /\ UNCHANGED <<sc, pc, runner, pf, pfres, psize, pinfo, waiter, wc, bc, brunner, bg, bgres, prio, fetched, lst, reg>>
+    /\ last' = [act |-> "Read", f |-> Ev.f, ok |-> FALSE, req |-> {}]
+    /\ ObsOK
 TraceRead == IsEvent("Read") /\ ReadG(Ev.f, Ev.ok, Got, L2(IF Ev.ok THEN MarkFull(lst, {Ev.f}) ELSE lst), Rq) /\ ObsOK
 TraceRegistryOff == IsEvent("RegistryOff") /\ RegistryOff /\ ObsOK
 TraceRegistryOn == IsEvent("RegistryOn") /\ RegistryOn /\ ObsOK
@@ -76,22 +85,32 @@ TraceRegistryOn == IsEvent("RegistryOn") /\ RegistryOn /\ ObsOK
 \* its goroutines keep committing chunks they can serve without the registry, at their own pace. The base spec
 \* applies all of that at BgStall / resume (BgLocal); here the part that shows up late is taken over from the next
 \* observation, if it is monotone and confined to the files background fetch caches.
-QuietEvents == {"WaitCall", "WaitReturn", "WaitTimeout", "PrefetchCall", "PrefetchReturn", "Range", "AsyncThreshold",
-                "BlobCacheStall", "BlobCache", "PrioBegin", "BgCall", "BgReturn", "RegistryOff", "RegistryOn"}
+\* files whose chunk-cache state the next event itself may change (left to that event)
+OwnFiles ==
+    CASE Ev.ev = "Read" -> {Ev.f} \cup Pre(Ev.f) \cup Prf(Ev.f)
+      [] Ev.ev = "ReaderCache" -> LET F == RangeFiles(psize) IN F \cup UNION {Pre(g) \cup Prf(g) : g \in F}
+      [] Ev.ev \in {"BgFinish", "BgStall", "Reset", "Drain"} -> Files
+      [] Ev.ev = "PrioEnd" -> IF BgResumes(PfPrio) THEN Files ELSE {}
+      [] Ev.ev = "PrefetchEnd" -> IF BgResumes(prio > 0) THEN Files ELSE {}
+      [] OTHER -> {}
+LateTarget == [g \in Files |-> IF g \in OwnFiles THEN lst[g] ELSE Ev.obs.lst[g]]
 TraceBgProgress ==
     /\ l <= Len(TraceLog) /\ UNCHANGED l
     /\ sc.haslst /\ bg \in {"stalled", "suspended"}
-    /\ Ev.ev \in QuietEvents
-    /\ Ev.obs.lst # lst /\ Monotone(Ev.obs.lst, BgFiles)
-    /\ lst' = Ev.obs.lst
+    /\ OwnFiles # Files
+    /\ LateTarget # lst /\ Monotone(LateTarget, BgFiles)
+    /\ lst' = LateTarget
     /\ UNCHANGED <<sc, pc, runner, pf, pfres, psize, pinfo, waiter, wc, bc, brunner, bg, bgres, prio, fetched, reg, last>>
 
+\* the rest of a prefetch after the walk ended (only a Reset can follow): judged by the monitor, not followed here
+TraceDrain == IsEvent("Drain") /\ UNCHANGED vars
+
 TraceNext ==
-    \/ TraceBgProgress
+    \/ TraceBgProgress \/ TraceDrain
     \/ TraceReset \/ TracePrefetchCall \/ TraceRange \/ TraceAsyncThreshold \/ TraceBlobCacheStall \/ TraceBlobCache
     \/ TraceReaderCache \/ TracePrefetchEnd \/ TracePrefetchReturn \/ TraceWaitCall \/ TraceWaitReturn \/ TraceWaitTimeout
     \/ TraceBgCall \/ TraceBgStall \/ TraceBgFinish \/ TraceBgReturn \/ TracePrioBegin \/ TracePrioEnd \/ TraceRead
-    \/ TraceRegistryOff \/ TraceRegistryOn
+    \/ TraceRegistryOff \/ TraceRegistryOn \/ TraceReadCancelled
 
 TraceSpec == TraceInit /\ [][TraceNext]_tvars
 
